@@ -25,6 +25,10 @@ type behaviour struct {
 	Devs    []string
 	Type    string // target type (default S)
 	MinSize bool
+	// KnownMismatch may name the listed finding that explains a verdict mismatch the reference model cannot express (it sees values, not bytes).
+	KnownMismatch func(sc *SCase, d *refmodel.Doc, o *drv.Obs) string
+	// Respell: every document is also fed in a second spelling of the same JSON value (jsonv.Respell); verdict and value must not change.
+	Respell bool
 	// ModelInit may switch on check-specific strictness of the reference model.
 	ModelInit func(m *refmodel.Model)
 	// DocFilter may drop documents (return false) that are outside the property's quantifier.
@@ -152,6 +156,16 @@ func runBehaviour(ctx *Ctx, b behaviour) {
 			}
 			classes[coarseClass(d.Class)]++
 			tasks = append(tasks, batch.Task{Prog: p, Type: typ, Mode: b.Mode, Doc: d.Text, Tag: &docTag{sc, m, d, tv}})
+			if b.Respell && b.Mode == "json" {
+				rd := d
+				rd.Text = jsonv.Respell(d.V)
+				rd.Class = d.Class + "/respelled"
+				if back, err := jsonv.Parse(rd.Text); err != nil || !jsonv.Equal(back, d.V) {
+					harnessFail("respelling of %s does not parse back to the same value: %q", d.Text, rd.Text)
+				}
+				classes["respelled"]++
+				tasks = append(tasks, batch.Task{Prog: p, Type: typ, Mode: b.Mode, Doc: rd.Text, Tag: &docTag{sc, m, rd, tv}})
+			}
 		}
 	}
 	outcomes := map[string]int{}
@@ -177,6 +191,11 @@ func runBehaviour(ctx *Ctx, b behaviour) {
 		}
 		if ov != tv {
 			devs, ok := attribute(m, d.V, ov, listed)
+			if !ok && b.KnownMismatch != nil {
+				if k := b.KnownMismatch(sc, &d, o); k != "" && ctx.Run.Listed(k) {
+					devs, ok = []string{k}, true
+				}
+			}
 			if ok {
 				for _, dv := range devs {
 					ctx.Run.Known(dv, fmt.Sprintf("%s doc=%s model=%s observed=%s (%s)", sc.ID, d.Text, tv, ov, firstLine(o.Err+o.Panic)),
